@@ -89,6 +89,12 @@ def elk_expr(e, names):
     raise ValueError(e)
 
 
+def elk_cond(e, names):
+    """a condition that begins with `!` is wrapped: `if !(x)` + newline does not parse (parser matter, not ours)"""
+    t = elk_expr(e, names)
+    return "(%s)" % t if t.startswith("!") else t
+
+
 def elk_stmts(ss, names, ind, out):
     pad = "  " * ind
     for s in ss:
@@ -98,14 +104,14 @@ def elk_stmts(ss, names, ind, out):
         elif k == "print":
             out.append("%sprintln(%s)" % (pad, elk_expr(s[1], names)))
         elif k == "if":
-            out.append("%sif %s" % (pad, elk_expr(s[1], names)))
+            out.append("%sif %s" % (pad, elk_cond(s[1], names)))
             elk_stmts(s[2], names, ind + 1, out)
             if s[3]:
                 out.append(pad + "else")
                 elk_stmts(s[3], names, ind + 1, out)
             out.append(pad + "end")
         elif k == "while":
-            out.append("%swhile %s" % (pad, elk_expr(s[1], names)))
+            out.append("%swhile %s" % (pad, elk_cond(s[1], names)))
             elk_stmts(s[2], names, ind + 1, out)
             out.append(pad + "end")
         elif k == "ret":
@@ -219,6 +225,9 @@ class Gen:
                         b = self.int_lit()
                         if b[1] == "0" and not r.chance(1, 6):
                             b = ["i", "3"]
+                        if r.chance(1, 20):
+                            self.f("divisor_zero")
+                            b = ["i", "0"]                               # uncaught ZeroDivisionError
                     return ["bin", o, a, b]
                 return ["bin", o, a, self.expr("I", sc, depth - 1, in_call)]
             if c < 7:
